@@ -9,7 +9,7 @@ CLAIM = dict(
    note="Same trusted base as C12. Hypotheses on the class table (partial order, hasattr inherited) are checked per generated world. Partial: transitivity is false of the code outside the proved fragment (known findings).",
    technique="Coq proof (induction on fuel; spec function denot) + differential correspondence", design="6 C13")
 
-THEOREMS = ["C13_denot", "C13_refl", "C13_fuel_irrelevant", "C13_classes", "C13_generic_covariant",
+THEOREMS = ["C13_total", "C13_denot", "C13_refl", "C13_fuel_irrelevant", "C13_classes", "C13_generic_covariant",
             "C13_alias_under_class", "C13_trans_partial", "C13_trans_refuted_constructed", "C13_trans_refuted_exactly"]
 ASSUMPTIONS = ["hypotheses of the theorems (issubclass reflexive/transitive/antisymmetric, hasattr inherited along issubclass) are checked per generated world; worlds violating them (virtual subclasses registered on an ABC that defines a method) are compared against the model only"]
 
